@@ -328,6 +328,12 @@ func (c *Cluster) pushInformerMetrics(ctx context.Context, informer Informer) {
 		}
 
 		metric, err := c.sendInformerMetric(ctx, informer)
+		if err == nil && metric.Discard() {
+			// The monitor drops an invalid metric without an
+			// error (i.e. the informer could not reach IPFS):
+			// nothing was published, so retry sooner too.
+			err = fmt.Errorf("informer %s returned an invalid metric", informer.Name())
+		}
 
 		if err != nil {
 			if (retries % retryWarnMod) == 0 {
